@@ -213,7 +213,10 @@ Definition text_step (toks : list token) (x : textst) (r : rune) (p0 p1 : pos) :
           let textv := firstn (length (x_buf x) + 1 - length tagbuf) (x_buf x) in
           let t1 := mkTok KText textv (x_start x) (x_end x) [] [] in
           let t2 := mkTok KTag tagbuf (x_end x) p1 (cSLASH :: x_rawname x) [] in
-          TR (t2 :: t1 :: toks) MInit false
+          match textv with
+          | [] => TR (t2 :: toks) MInit false          (* <script></script>: no empty text token *)
+          | _ => TR (t2 :: t1 :: toks) MInit false
+          end
         else TR toks (MText (mkText (x_buf x ++ [r]) (x_start x) true (x_close x) (x_rawname x) (x_end x) tagbuf namebuf)) false
       else TR toks (MText (mkText (x_buf x ++ [r]) (x_start x) true (x_close x) (x_rawname x) (x_end x) [] [])) false
   else if N.eqb r cLT then
@@ -222,8 +225,12 @@ Definition text_step (toks : list token) (x : textst) (r : rune) (p0 p1 : pos) :
 
 Definition dispatch (toks : list token) (m : mode) (r : rune) (p0 p1 : pos) : tres :=
   match m with
-  | MInit => if N.eqb r cLT then TR toks (MTag (new_tag p0)) false
-             else text_step toks (new_text toks p0) r p0 p1
+  | MInit => (* inside a raw-text element the content is text even when it starts with '<' *)
+             match raw_tag_of_last toks with
+             | Some _ => text_step toks (new_text toks p0) r p0 p1
+             | None => if N.eqb r cLT then TR toks (MTag (new_tag p0)) false
+                       else text_step toks (new_text toks p0) r p0 p1
+             end
   | MText x => text_step toks x r p0 p1
   | MTag g => tag_step toks g r p0 p1
   | MErr e => TR toks (MErr e) false
